@@ -167,10 +167,70 @@ def best_sizes_cases(cases, res):
         if A.fmt_of(a) != A.fmt_of(b) or lib.codes_of(a) != lib.codes_of(b):
             res.fail(c, 'C17: size inference for a scaled object does not size the transformed value', expected=(A.fmt_of(b), lib.codes_of(b)), got=(A.fmt_of(a), lib.codes_of(a)))
 
+def operand_cases(rng, n):
+    """a scaled object as an operand of + - * (first, second) or as the out= target: it counts by the value it reads back"""
+    cases = []
+    while len(cases) < n:
+        def f():
+            nw = rng.choice([4, 6, 8, 12, rng.randint(2, 12)]); return [rng.random() < 0.6, nw, rng.choice([0, 1, nw // 2, nw])]
+        fxm, fym = f(), f()
+        def code(fm):
+            lo, hi = S.fmt_bounds(fm[0], fm[1]); return rng.choice([lo, hi, rng.randint(lo, hi), rng.randint(lo, hi)])
+        scale = Fraction(rng.choice([2, 4, -2, 3, 1, 1]), 2 ** rng.randint(0, 2)); bias = Fraction(rng.randint(-16, 16), 2 ** rng.randint(0, 2))
+        if scale == 1 and bias == 0: bias = Fraction(3)
+        which = rng.choice(['x', 'y', 'y', 'out'])
+        c = {'x': fxm, 'cx': code(fxm), 'y': fym, 'cy': code(fym), 'op': rng.choice('+-*'), 'which': which, 'scale': str(scale), 'bias': str(bias), 'r': rng.choice(RMODES), 'o': rng.choice(OMODES)}
+        if which == 'out':
+            nwo = rng.choice([8, 12, 16]); c['out'] = [True, nwo, rng.choice([0, 2, nwo // 2])]
+        cases.append(c)
+    return cases
+
+def run_operand(cases, res):
+    fx = lib.impl(); import numpy as np
+    pend = []; reqs = []
+    for c in cases:
+        scale, bias = Fraction(c['scale']), Fraction(c['bias'])
+        kw = dict(rounding=c['r'], overflow=c['o']); skw = dict(kw, scale=float(scale), bias=float(bias))
+        try:
+            x = fx.Fxp(c['cx'], *c['x'], raw=True, **(skw if c['which'] == 'x' else kw)); y = fx.Fxp(c['cy'], *c['y'], raw=True, **(skw if c['which'] == 'y' else kw))
+            xv = Fraction(c['cx']) / Fraction(2) ** c['x'][2]; yv = Fraction(c['cy']) / Fraction(2) ** c['y'][2]
+            if c['which'] == 'x': xv = scale * xv + bias
+            if c['which'] == 'y': yv = scale * yv + bias
+            if lib.vals_of(x.get_val())[0] != xv or lib.vals_of(y.get_val())[0] != yv:
+                res.fail(c, 'C17: reading a scaled object does not return scale*code*2^-n_frac + bias', expected=(str(xv), str(yv)), got=(str(lib.vals_of(x.get_val())[0]), str(lib.vals_of(y.get_val())[0]))); continue
+            e = xv + yv if c['op'] == '+' else (xv - yv if c['op'] == '-' else xv * yv)
+            if c['which'] == 'out':
+                out = fx.Fxp(None, *c['out'], **skw); out.reset()    # (the initial value 0 is itself transformed and may leave the range: flags are sticky)
+                z = {'+': fx.add, '-': fx.sub, '*': fx.mul}[c['op']](x, y, out=out)
+                if z is not out:
+                    res.fail(c, 'C17: arithmetic through out= did not return the target object', got=str(type(z))); continue
+            else:
+                z = x + y if c['op'] == '+' else (x - y if c['op'] == '-' else x * y)
+            zs = Fraction(z.scale) if getattr(z, 'scaled', False) else Fraction(1); zb = Fraction(z.bias) if getattr(z, 'scaled', False) else Fraction(0)
+            t = (e - zb) / zs
+            zf = (bool(z.signed), int(z.n_word), int(z.n_frac))
+            if not (exact_double(e) and exact_double(e - zb) and exact_double(t) and S.in_core(zf[2], t)):
+                res.count('O:operand-discarded(not exact doubles)', key=repr(c), nontrivial=False); continue
+            got = (lib.codes_of(z)[0], lib.status3(z)[:2], lib.vals_of(z.get_val())[0])
+            zr, zo = z.config.rounding, z.config.overflow
+        except Exception as e_:
+            res.fail(c, 'C17: arithmetic with a scaled operand / target raised %s' % lib.exc_name(e_), got=str(e_)[:200]); continue
+        pend.append((c, got, zf, zs, zb, zr)); reqs.append([4] + e_fmt(*zf) + [RMODES.index(zr), OMODES.index(zo)] + e_list([t], e_dy))
+    outs = model_call(reqs)
+    for (c, got, zf, zs, zb, zr), o in zip(pend, outs):
+        rd = Reader(o); want = rd.lst(rd.z)[0]; wflags = (rd.b(), rd.b())
+        res.count('O:scaled-operand-or-target', key=repr(c), nontrivial=True)
+        res.sample(c)
+        if got[0] != want or got[1] != wflags:
+            res.fail(c, 'C17: a scaled object used as an operand (or as the out= target) of + - * does not count by its value scale*code*2^-n_frac + bias: the result is not the quantization of the exact result of the values', expected=(want, wflags, zf), got=got[:2]); continue
+        if got[2] != zs * Fraction(want) / Fraction(2) ** zf[2] + zb:
+            res.fail(c, 'C17: the result of arithmetic with a scaled operand does not read back scale*code*2^-n_frac + bias', expected=str(zs * Fraction(want) / Fraction(2) ** zf[2] + zb), got=str(got[2]))
+
 def shard(shard, nshards, rng, tier, extra):
     res = Result()
     run_cases([gen(rng) for _ in range((4000 if tier == 'quick' else 100000) // nshards)], res)
     best_sizes(rng, (600 if tier == 'quick' else 15000) // nshards, res)
+    run_operand(operand_cases(rng, (1200 if tier == 'quick' else 30000) // nshards), res)
     return res
 
 def run(seed, tier):
@@ -179,5 +239,6 @@ def classify(fl): return None
 def replay(payload):
     c = payload['case']; res = Result()
     if 'vs' in c: run_cases([unj(c)], res)
+    elif 'which' in c: run_operand([c], res)
     elif 't' in c: best_sizes_cases([c], res)
     return {'holds': not res.failures, 'failures': res.failures}
